@@ -27,7 +27,7 @@ def parseAct (t : String) : Option (Option UAct) :=
   | 'u' :: _ :: _ => some none
   | 't' :: _ :: _ => some none
   | 'w' :: d => (String.ofList d).toNat?.map fun v => some (.write v)
-  | 'c' :: d => (String.ofList d).toNat?.map fun k => some (.cancel (if k = 0 then none else some k))
+  | 'c' :: d => (String.ofList d).toNat?.map fun k => some (.cancel (cancelArg k))
   | _ => none
 
 def parseScript (s : String) : Option (List UAct) :=
@@ -52,7 +52,7 @@ def parseWhoErr (d : List Char) : Option (Who × Option Nat) :=
   match (String.ofList d).splitOn "_" with
   | [w, k] => do
     let k ← k.toNat?
-    let e := if k = 0 then none else some k
+    let e := cancelArg k
     match w.toList with
     | ['r'] => pure (.reducer, e)
     | 'm' :: i => (natOf i).map fun i => (.mapper i, e)
@@ -303,6 +303,14 @@ def runLine (r : Report) (sec : Nat) (l : Line) : Report := Id.run do
   if (l.op.any fun t => ((t.splitOn "=").getD 1 "").splitOn "/" |>.any fun sc => (sc.splitOn ".").contains "f") then
     r := r.addCover "nested-calls-from-a-user-function"
   if isEachApi run.api ∧ (c.ctxCan ∨ c.ctxPre) then r := r.addCover "each-with-context"
+  -- the error VALUE classes handed to cancel / returned by a Finish function
+  let cancelCodes : List Nat := (l.op.flatMap fun t => ((t.splitOn "=").getD 1 "").splitOn "/" |>.flatMap fun sc => (sc.splitOn ".").filterMap fun a =>
+    match a.toList with
+    | 'c' :: d => (String.ofList d).toNat?
+    | _ => none)
+  for k in cancelCodes.eraseDups do
+    r := r.addCover s!"cancel-error-{errKindName k}"
+    r := r.addCover s!"cancel-error-{errKindName k}-{run.api}"
   if nestedBad ≠ 0 then
     r := r.violation sec l.idx s!"{nestedBad} nested call(s) from inside a user function misbehaved (two functions of one Finish could not run at the same time / FinishVoid did not run both / a default MapReduce did not return its sum) op=[{joinSp l.op}]"
   for wt in run.waits.eraseDups do r := r.addCover s!"wait-{wt}"
@@ -355,12 +363,20 @@ def runLine (r : Report) (sec : Nat) (l : Line) : Report := Id.run do
     return r
   let some res := (if resS = "ok" then some (.err .noOutput) else parseRes resS)
     | return r.violation sec l.idx s!"outcome {resS} is neither a cancel/context error, a user panic nor a value op=[{opS}]"
-  if run.api ≠ "mr" ∧ run.api ≠ "chan" ∧ (resS = "err:noout" ∨ resS.startsWith "val:") then
-    r := r.violation sec l.idx s!"{run.api} returned {resS}: ErrReduceNoOutput must become nil and there is no value op=[{opS}]"
-  if ¬ allowed c res then
-    r := r.violation sec l.idx s!"outcome {resS} is not in the returned-error table of this call op=[{opS}]"
-  -- the table for the schedule that actually happened
   let hr := upTo (· == .ret) hist
+  -- `ErrReduceNoOutput` handed to cancel by the user (code 111) comes back as the same VALUE as the library's own
+  -- "no output": the outcome err:noout then has a second reading, "the error that was passed to cancel"
+  let alt : Option Res := if resS = "err:noout" ∧ cancelBegan (some 111) hr then some (.err (.user 111)) else none
+  let okBy (p : Res → Bool) : Bool := p res || alt.any p
+  if run.api ≠ "mr" ∧ run.api ≠ "chan" ∧ ((resS = "err:noout" ∧ ¬ alt.any (allowedAt mapped hist)) ∨ resS.startsWith "val:") then
+    r := r.violation sec l.idx s!"{run.api} returned {resS}: ErrReduceNoOutput must become nil (unless it is the error that was passed to cancel) and there is no value op=[{opS}]"
+  if ¬ okBy (allowed c) then
+    r := r.violation sec l.idx s!"outcome {resS} is not in the returned-error table of this call op=[{opS}]"
+  match res with
+  | .err (.user k) => if k ≥ 100 then r := r.addCover s!"returned-error-{errKindName k}-{run.api}"
+  | _ => pure ()
+  if alt.any (allowedAt mapped hist) then r := r.addCover s!"returned-error-{errKindName 111}-{run.api}"
+  -- the table for the schedule that actually happened
   let preW := upTo isWbegin hr
   if hr.any isWbegin then
     if preW.any isCend then r := r.addCover "sched-cancel-returned-before-reducer-write"
@@ -374,12 +390,14 @@ def runLine (r : Report) (sec : Nat) (l : Line) : Report := Id.run do
   -- ForEach / FinishVoid / Finish have no user reducer: there is no reducer event to place `nil` against; instead:
   -- a nil return means every function ran and none of them had announced an error / a panic
   let noUserReducer := isEachApi run.api || run.api = "finish"
-  if noUserReducer ∧ res = .err .noOutput then
+  if noUserReducer ∧ res = .err .noOutput ∧ resS = "ok" then
     if hr.any (fun e => match e with | .cbegin _ _ => true | _ => false) then
       r := r.violation sec l.idx s!"{run.api} returned nil although a function had returned an error before hist={histS} op=[{opS}]"
     if sorted mapped ≠ List.range c.n then
       r := r.violation sec l.idx s!"{run.api} returned before every function / item was run exactly once: ran={showNats mapped} op=[{opS}]"
-  if ¬ (noUserReducer ∧ res = .err .noOutput) ∧ ¬ allowedAt mapped hist res then
+  -- (a void / Finish call whose err:noout is the cancel error is not the nil decision)
+  let nilDecision := noUserReducer ∧ res = .err .noOutput ∧ resS = "ok"
+  if ¬ nilDecision ∧ ¬ okBy (allowedAt mapped hist) then
     -- an error that WAS passed to cancel before the return, but by a call that began after another cancel call had
     -- returned, satisfies the property's text; it contradicts the model (cancel runs under a sync.Once:
     -- `Props.first_cancel_wins`): reported as a broken correspondence, not as a property violation
